@@ -8,77 +8,84 @@ use emit_core::filter::Filter;
 use emit_core::path::Path;
 use emit_core::template::Template;
 
-/// prefix-sharing siblings and nested modules
-const PATHS: [&str; 6] = ["a", "aa", "a::b", "a::bb", "a::b::c", "b"];
 const LEVELS: [Level; 4] = [Level::Debug, Level::Info, Level::Warn, Level::Error];
 
-/// reference: is `m` equal to `p` or a descendant of it at a `::` boundary (on the concrete pool)
-fn under(m: usize, p: usize) -> bool {
-    let (m, p) = (PATHS[m].as_bytes(), PATHS[p].as_bytes());
+/// reference: is module `m` equal to `p` or a descendant of it at a `::` boundary
+fn under(m: &str, p: &str) -> bool {
+    let (m, p) = (m.as_bytes(), p.as_bytes());
     if p.len() > m.len() { return false; }
     let mut i = 0;
     while i < p.len() { if m[i] != p[i] { return false; } i += 1; }
     m.len() == p.len() || (m.len() >= p.len() + 2 && m[p.len()] == b':' && m[p.len() + 1] == b':')
 }
 
-fn pathmap(nregs_max: usize) {
+/// One family: two registration paths and an event module, all CONCRETE (so that `split("::")` and the
+/// binary searches constant-fold: with symbolic paths the TwoWaySearcher does not finish), while
+/// everything else is symbolic: which registrations are present, their order, every level, the default.
+fn family(p0: &'static str, p1: &'static str, module: &'static str) {
     let mut map = MinLevelPathMap::new();
     let has_default: bool = kani::any();
     let dflt: usize = kani::any();
     kani::assume(dflt < 4);
     if has_default { map.default_min_level(LEVELS[dflt]); }
-    let nregs: usize = kani::any();
-    kani::assume(nregs <= nregs_max);
-    let mut reg_path = [0usize; 3];
-    let mut reg_lvl = [0usize; 3];
-    let mut i = 0;
-    while i < nregs_max {
-        if i < nregs {
-            let p: usize = kani::any();
-            let l: usize = kani::any();
-            kani::assume(p < PATHS.len() && l < 4);
-            reg_path[i] = p;
-            reg_lvl[i] = l;
-            map.min_level(Path::new_raw(PATHS[p]), LEVELS[l]);
-        }
-        i += 1;
+    let use0: bool = kani::any();
+    let use1: bool = kani::any();
+    let swap: bool = kani::any();
+    let l0: usize = kani::any();
+    let l1: usize = kani::any();
+    kani::assume(l0 < 4 && l1 < 4);
+    // registration order is symbolic
+    if swap {
+        if use1 { map.min_level(Path::new_raw(p1), LEVELS[l1]); }
+        if use0 { map.min_level(Path::new_raw(p0), LEVELS[l0]); }
+    } else {
+        if use0 { map.min_level(Path::new_raw(p0), LEVELS[l0]); }
+        if use1 { map.min_level(Path::new_raw(p1), LEVELS[l1]); }
     }
-    let m: usize = kani::any();
-    kani::assume(m < PATHS.len());
     let el: usize = kani::any();
     kani::assume(el < 4);
-    let got = map.matches(Event::new(Path::new_raw(PATHS[m]), Template::literal("t"), Empty, ("lvl", LEVELS[el])));
-    // reference: longest registered ancestor-or-self, last registration of that path wins
-    let mut best: Option<usize> = None; // index into regs
-    let mut i = 0;
-    while i < nregs_max {
-        if i < nregs && under(m, reg_path[i]) {
-            match best {
-                None => best = Some(i),
-                Some(b) => if PATHS[reg_path[i]].len() >= PATHS[reg_path[b]].len() { best = Some(i); }
-            }
-        }
-        i += 1;
-    }
-    let min = match best { Some(b) => Some(LEVELS[reg_lvl[b]]), None => if has_default { Some(LEVELS[dflt]) } else { None } };
-    let want = match min { Some(min) => LEVELS[el] >= min, None => true };
+    let got = map.matches(Event::new(Path::new_raw(module), Template::literal("t"), Empty, ("lvl", LEVELS[el])));
+    // reference: the longest registered path the module is under; for the SAME path the later registration wins
+    let m0 = use0 && under(module, p0);
+    let m1 = use1 && under(module, p1);
+    let same = p0.len() == p1.len() && under(p0, p1);
+    let min = if m0 && m1 {
+        if same { Some(if swap { l0 } else { l1 }) }
+        else if p0.len() > p1.len() { Some(l0) } else { Some(l1) }
+    } else if m0 { Some(l0) } else if m1 { Some(l1) } else if has_default { Some(dflt) } else { None };
+    let want = match min { Some(min) => LEVELS[el] >= LEVELS[min], None => true };
     assert!(got == want, "the most specific registered module rule applies");
     core::mem::forget(map);
-    kani::cover!(best.is_some() && nregs >= 2 && reg_path[0] != reg_path[1] && under(m, reg_path[0]) && under(m, reg_path[1]), "two nested rules match");
-    kani::cover!(best.is_none() && nregs >= 1, "sibling with shared textual prefix does not match");
-    kani::cover!(nregs >= 2 && reg_path[0] == reg_path[1], "repeated registration");
+    kani::cover!(use0 && use1 && swap, "both registered, reverse order");
+    kani::cover!(!got, "rejected");
+    kani::cover!(got, "accepted");
 }
 
-#[kani::proof]
-#[kani::unwind(8)]
-pub fn c17_q_pathmap_2regs() { pathmap(2); }
+macro_rules! fam {
+    ($name:ident, $p0:expr, $p1:expr, $m:expr) => {
+        #[kani::proof]
+        #[kani::unwind(12)]
+        pub fn $name() { family($p0, $p1, $m); }
+    };
+}
+
+// nested rules: the most specific wins
+fam!(c17_q_pathmap_nested, "a", "a::b", "a::b::c");
+// siblings sharing a textual prefix
+fam!(c17_q_pathmap_prefix_sibling, "a", "aa", "aa");
+fam!(c17_q_pathmap_prefix_sibling_child, "a::b", "a::bb", "a::bb::c");
+// repeated registration of the same path: the later one wins
+fam!(c17_q_pathmap_repeated, "a", "a", "a::b");
+// a registered name that occurs deeper in an unrelated module path must not match
+fam!(c17_q_pathmap_unrelated_suffix, "b", "a::b", "a::b");
+fam!(c17_q_pathmap_skipped_segment, "noisy", "app", "app::x::noisy");
+fam!(c17_q_pathmap_root_mismatch, "a", "a::b", "z::a::b");
+fam!(c17_t_pathmap_deeper, "a::b::c", "a::b", "a::b::c::d");
+fam!(c17_t_pathmap_child_of_unregistered, "a::b", "c", "a::x::b");
+fam!(c17_t_pathmap_exact, "a::b", "a", "a");
 
 #[kani::proof]
-#[kani::unwind(8)]
-pub fn c17_t_pathmap_3regs() { pathmap(3); }
-
-#[kani::proof]
-#[kani::unwind(8)]
+#[kani::unwind(12)]
 pub fn c17_w_twin_prefix_is_textual() {
     // false claim: `aa` is governed by the rule for `a`
     let mut map = MinLevelPathMap::new();
